@@ -607,6 +607,8 @@ def find_method(mod, cname, attr, skip_self=False):
         first = False
         nxt = None
         for b in c.bases:
+            if isinstance(b, ast.Subscript):     # Generic[...] parameterisation
+                b = b.value
             bn = ast.unparse(b)
             if bn in m['classes']:
                 nxt = m['classes'][bn]
@@ -718,8 +720,10 @@ JNP = {
     'square': lambda a: asarr(a) * asarr(a), 'expand_dims': lambda a, ax: np.expand_dims(asarr(a), ax),
     'sin': unary('sin'), 'cos': unary('cos'), 'tanh': unary('tanh'), 'arctanh': unary('arctanh'), 'log': unary('log'), 'exp': unary('exp'),
     'sqrt': unary('sqrt'), 'abs': unary('abs'), 'sign': unary('sign'), 'isnan': lambda x: elemwise(lambda v: False if Rat.lift(v).is_const() else uf('isnan', v), x), 'isinf': unary('isinf'), 'arctan2': lambda a, b: elemwise(lambda u, v: uf('arctan2', u, v), a, b), 'logical_and': lambda a, b: asarr(a) * asarr(b), 'logical_not': lambda a: 1 - asarr(a), 'logical_or': lambda a, b: asarr(a) + asarr(b) - asarr(a) * asarr(b), 'repeat': lambda a, n, axis=None: np.repeat(asarr(a), n, axis=axis), 'transpose': lambda a, *ax: np.transpose(asarr(a), *ax), 'outer': lambda a, b: np.outer(asarr(a), asarr(b)), 'trace': lambda a: np.trace(asarr(a)), 'full': lambda shape, v, **k: np.full(shape if isinstance(shape, tuple) else (shape,), None, dtype=object) * 0 + Rat.lift(v) if False else _full(shape, v), 'any': lambda x, axis=None, **k: _any(x, axis), 'all': lambda x, axis=None, **k: _all(x, axis),
-    'maximum': lambda a, b: elemwise(lambda x, y: uf('max', *sorted([Rat.lift(x), Rat.lift(y)], key=lambda r: repr(r.key()))), a, b),
-    'minimum': lambda a, b: elemwise(lambda x, y: uf('min', *sorted([Rat.lift(x), Rat.lift(y)], key=lambda r: repr(r.key()))), a, b),
+    'maximum': lambda a, b: elemwise(lambda x, y: _minmax('max', x, y), a, b),
+    'minimum': lambda a, b: elemwise(lambda x, y: _minmax('min', x, y), a, b),
+    'roll': lambda a, shift, axis=None: np.roll(asarr(a), toint(shift), axis=axis),
+    'mod': lambda a, b: elemwise(_mod, a, b), 'remainder': lambda a, b: elemwise(_mod, a, b),
     'split': lambda x, n, axis=-1: list(np.split(asarr(x), n, axis=axis)),
     'prod': lambda x, **k: asarr(x).prod(),
     'reshape': lambda x, s: asarr(x).reshape(s),
@@ -737,6 +741,18 @@ JNP = {
     'issubdtype': lambda d, c: (d[1] == 'float') == (c[1] == 'inexact') if isinstance(d, tuple) and d[0] == 'dtype' else True,
     'ndarray': ('dtypeclass', 'ndarray'),
 }
+def _minmax(name, x, y):
+    x, y = Rat.lift(x), Rat.lift(y)
+    if x.is_const() and y.is_const():
+        return Rat.lift((min if name == 'min' else max)(x.constval(), y.constval()))
+    return uf(name, *sorted([x, y], key=lambda r: repr(r.key())))
+
+def _mod(a, b):
+    a, b = Rat.lift(a), Rat.lift(b)
+    if a.is_const() and b.is_const() and b.constval() != 0:
+        return Rat.lift(a.constval() % b.constval())
+    return uf('mod', a, b)
+
 def _full(shape, v):
     if isinstance(shape, int):
         shape = (shape,)
@@ -1062,7 +1078,14 @@ class Interp:
         if isinstance(op, ast.BitAnd): return l * r
         if isinstance(op, ast.BitOr): return l + r - l * r
         if isinstance(op, ast.Mod):
-            return elemwise(lambda a, b: uf('mod', a, b), l, r)
+            return elemwise(_mod, l, r)
+        if isinstance(op, ast.FloorDiv):
+            def fd(a, b):
+                a, b = Rat.lift(a), Rat.lift(b)
+                if a.is_const() and b.is_const() and b.constval() != 0:
+                    return Rat.lift(a.constval() // b.constval())
+                return uf('floordiv', a, b)
+            return elemwise(fd, l, r)
         raise OutOfFragment('binop %s' % type(op).__name__)
 
     # --- structs (Base methods modelled natively: they are tree_map one-liners)
@@ -1254,6 +1277,62 @@ class Interp:
             ax = kw.get('axis_name', args[1] if len(args) > 1 else None)
             op = name.rsplit('.', 1)[1]
             return self.tree_map(('prim', op, lambda x: elemwise(lambda v: uf(op, v, ax), x)), args[0])
+        if name in ('jax.sharding.PartitionSpec', 'jax.sharding.NamedSharding', 'jax.sharding.Mesh'):
+            return ('opaque', name)
+        if name in ('jax.pmap',):
+            return Vmapped(args[0])
+        if name in ('jax.experimental.pjit.pjit', 'jax.pjit'):
+            return args[0]
+        if name in ('jax.process_index',):
+            return 0
+        if name == 'math.prod':
+            r = 1
+            for x in args[0]:
+                r = r * x
+            return r
+        if name == 'jax.lax.cond':
+            c = args[0]
+            c = c.constval() != 0 if isinstance(c, Rat) and c.is_const() else c
+            if isinstance(c, np.ndarray) and c.shape == ():
+                c0 = Rat.lift(c[()])
+                c = c0.constval() != 0 if c0.is_const() else c0
+            if isinstance(c, (bool, int)):
+                return self.apply(args[1] if c else args[2], list(args[3:]), {})
+            a_, b_ = self.apply(args[1], list(args[3:]), {}), self.apply(args[2], list(args[3:]), {})
+            return self.tree_map(('prim', 'sel', lambda x, y: P_where(c, x, y)), a_, b_)
+        if name == 'jax.lax.dynamic_update_slice_in_dim':
+            data, upd, start = asarr(args[0]).copy(), asarr(args[1]), toint(args[2])
+            ax = kw.get('axis', args[3] if len(args) > 3 else 0)
+            if isinstance(start, np.ndarray):
+                start = int(start)
+            if ax != 0:
+                raise OutOfFragment('dynamic_update_slice_in_dim axis != 0')
+            start = max(0, min(int(start), data.shape[0] - upd.shape[0]))   # XLA clamps the start index
+            data[start:start + upd.shape[0]] = upd
+            return data
+        if name in ('jax.tree_util.tree_flatten', 'jax.tree.flatten', 'jax.tree_flatten'):
+            return self.leaves(args[0]), ('treedef', args[0])
+        if name == 'jax.flatten_util.ravel_pytree':
+            tree = args[0]
+            lv = [asarr(x) for x in self.leaves(tree)]
+            shapes = [x.shape for x in lv]
+            flat = np.concatenate([x.ravel() for x in lv]) if lv else np.empty((0,), dtype=object)
+            def unflatten(v, tree=tree, shapes=shapes):
+                v = asarr(v)
+                out, pos = [], 0
+                for sh in shapes:
+                    n_ = int(np.prod(sh)) if sh else 1
+                    out.append(v[pos:pos + n_].reshape(sh)); pos += n_
+                it = iter(out)
+                return self.tree_map(('prim', 'fill', lambda _x: next(it)), tree)
+            return flat, ('prim', 'unflatten', unflatten)
+        if name == 'jax.random.randint':
+            shape = kw.get('shape', args[1] if len(args) > 1 else ())
+            lo = kw.get('minval', args[2] if len(args) > 2 else 0); hi = kw.get('maxval', args[3] if len(args) > 3 else None)
+            a_ = np.empty(tuple(shape), dtype=object)
+            for idx in np.ndindex(*a_.shape):
+                a_[idx] = uf('randint', asarr(args[0]), idx, lo, hi)
+            return a_
         if name in ('jax.random.split', 'jax.random.fold_in'):
             key = asarr(args[0])
             n = kw.get('num', args[1] if len(args) > 1 else 2)
@@ -1578,6 +1657,10 @@ class Interp:
                 self.assign(s.target, item, env, mod)
                 self.block(s.body, env, mod)
             return
+        if t is ast.With:
+            for it_ in s.items:
+                self.ev(it_.context_expr, env, mod)
+            self.block(s.body, env, mod); return
         if t is ast.While:
             n_it = 0
             while True:
